@@ -1246,7 +1246,8 @@ func c08SectionOfLength(target int) (ref.S35Section, bool) {
 			return sec, true
 		case room < empty:
 			return sec, false
-		case room <= empty+238:
+		case room <= 257:
+			// one last descriptor of exactly the remaining size (descriptor_length up to its maximum 255)
 			sec.Descs = append(sec.Descs, c08SegWithUPID(k, room-empty))
 			return sec, slen() == target
 		case room < 2*empty+200:
